@@ -472,6 +472,9 @@ fn scientific_to_plain(s: String) -> String {
       let after_decimal = split2.next().unwrap();
       let zeroes = (0..(exponent_digits - after_decimal.len())).map(|_| "0").collect::<String>();
       format!("{}{}{}", before_decimal, after_decimal, zeroes)
+    } else if before_exponent == "0" {
+      // zero is written as 0, whatever its exponent
+      before_exponent.to_string()
     } else {
       let zeroes = (0..exponent_digits).map(|_| "0").collect::<String>();
       format!("{}{}", before_exponent, zeroes)
